@@ -3,13 +3,19 @@
 package main
 
 import (
+	"bytes"
+	"context"
 	"fmt"
+	"io"
+	"os"
 	"slices"
 	"sort"
 	"strconv"
 	"strings"
+	"time"
 
 	"mvdan.cc/sh/v3/expand"
+	"mvdan.cc/sh/v3/interp"
 	"mvdan.cc/sh/v3/syntax"
 	"mvdan.cc/sh/v3/verifhook"
 )
@@ -424,8 +430,10 @@ type c33Elem struct {
 
 type c33Cmd struct {
 	x     string // "a" or "b"
-	kind  string // as ap se ae ss sa ue ua cp ca lo ln d ( )
+	kind  string // as ap da se ae ss sa ue ua cp ca ra mf lo ln d ( )
 	es    []c33Elem
+	vals  []string // ra mf: the fields / lines
+	vnt   int      // ra mf: rendering variant
 	i     int
 	v     string
 	items []string
@@ -449,8 +457,14 @@ func (cm c33Cmd) token() string {
 		return "(" + cm.blk
 	case ")":
 		return ")"
-	case "as", "ap", "lo":
+	case "as", "ap", "lo", "da":
 		return cm.x + ":" + cm.kind + ":" + elems()
+	case "ra", "mf":
+		p := make([]string, len(cm.vals))
+		for i, v := range cm.vals {
+			p[i] = hx(v)
+		}
+		return cm.x + ":" + cm.kind + ":" + strconv.Itoa(cm.vnt) + ":" + strings.Join(p, ",")
 	case "se", "ae":
 		return cm.x + ":" + cm.kind + ":" + strconv.Itoa(cm.i) + ":" + hx(cm.v)
 	case "ss", "sa":
@@ -501,7 +515,15 @@ func c33ParseToken(tok string) (c33Cmd, bool) {
 	cm := c33Cmd{x: f[0], kind: f[1]}
 	var err error
 	switch {
-	case (cm.kind == "as" || cm.kind == "ap" || cm.kind == "lo") && len(f) == 3:
+	case (cm.kind == "ra" || cm.kind == "mf") && len(f) == 4:
+		cm.vnt, err = strconv.Atoi(f[2])
+		if f[3] != "" {
+			for _, h := range strings.Split(f[3], ",") {
+				cm.vals = append(cm.vals, unhx(h))
+			}
+		}
+		return cm, err == nil && cm.vnt >= 0 && cm.vnt < 4
+	case (cm.kind == "as" || cm.kind == "ap" || cm.kind == "lo" || cm.kind == "da") && len(f) == 3:
 		var ok bool
 		cm.es, ok = c33ParseElems(f[2])
 		return cm, ok
@@ -603,6 +625,36 @@ func c33Render(cmds []c33Cmd) string {
 			blk = ""
 		case "as":
 			fmt.Fprintf(&sb, "%s=(%s)\n", x, c33RenderElems(cm.es))
+		case "da":
+			// declare -a x=(…): inside a function -g keeps it the global variable
+			flag := "-a"
+			if blk == "fn" {
+				flag = "-ga"
+			}
+			fmt.Fprintf(&sb, "declare %s %s=(%s)\n", flag, x, c33RenderElems(cm.es))
+		case "ra":
+			// read -a replaces the array by the fields of one line
+			switch cm.vnt {
+			case 0:
+				fmt.Fprintf(&sb, "read -a %s <<< '%s'\n", x, strings.Join(cm.vals, " "))
+			case 1:
+				fmt.Fprintf(&sb, "read -ra %s <<< '%s'\n", x, strings.Join(cm.vals, " "))
+			case 2:
+				fmt.Fprintf(&sb, "IFS=, read -ra %s <<< '%s'\n", x, strings.Join(cm.vals, ","))
+			default:
+				fmt.Fprintf(&sb, "IFS=: read -a %s <<< '%s'\n", x, strings.Join(cm.vals, ":"))
+			}
+		case "mf":
+			// mapfile / readarray replace the array by the lines of the input
+			name := "mapfile"
+			if cm.vnt%2 == 1 {
+				name = "readarray"
+			}
+			if len(cm.vals) == 0 {
+				fmt.Fprintf(&sb, "%s -t %s < /dev/null\n", name, x)
+			} else {
+				fmt.Fprintf(&sb, "%s -t %s <<< $'%s'\n", name, x, strings.Join(cm.vals, "\\n"))
+			}
 		case "ap":
 			fmt.Fprintf(&sb, "%s+=(%s)\n", x, c33RenderElems(cm.es))
 		case "lo":
@@ -670,9 +722,13 @@ func c33SliceNum(n int) string {
 type c33OVar struct {
 	kind int // 0 unset, 1 scalar, 2 array
 	m    map[int]string
+	// noSet mirrors "the interpreter's Variable.Set is false although the variable has a value"
+	// (only after mapfile).  It is NOT part of the oracle (bash has no such thing); only the
+	// generator reads it, to apply the exclusion of finding C33-mapfile-not-set exactly.
+	noSet bool
 }
 
-func (v c33OVar) clone() c33OVar { return c33OVar{v.kind, maps33Clone(v.m)} }
+func (v c33OVar) clone() c33OVar { return c33OVar{v.kind, maps33Clone(v.m), v.noSet} }
 
 func (v c33OVar) max() int { return c33MapMax(v.m) }
 
@@ -695,6 +751,25 @@ func (v *c33OVar) lit(es []c33Elem, index int) {
 
 // apply returns false when bash reports an error for the command (the array is left alone).
 func (v *c33OVar) apply(cm c33Cmd, other c33OVar) bool {
+	ok := v.apply0(cm, other)
+	switch cm.kind {
+	case "mf":
+		v.noSet = true
+	case "ue":
+		if v.kind == 0 {
+			v.noSet = false
+		}
+	case "ua", "ln":
+		v.noSet = false
+	default: // every other successful assignment makes the variable IsSet()
+		if ok {
+			v.noSet = false
+		}
+	}
+	return ok
+}
+
+func (v *c33OVar) apply0(cm c33Cmd, other c33OVar) bool {
 	if v.m == nil {
 		v.m = map[int]string{}
 	}
@@ -705,7 +780,16 @@ func (v *c33OVar) apply(cm c33Cmd, other c33OVar) bool {
 		return i
 	}
 	switch cm.kind {
-	case "as", "lo":
+	case "ra", "mf":
+		v.m = map[int]string{}
+		v.kind = 2
+		for i, s := range cm.vals {
+			v.m[i] = s
+		}
+		return true
+	}
+	switch cm.kind {
+	case "as", "lo", "da":
 		v.m = map[int]string{}
 		v.kind = 2
 		v.lit(cm.es, 0)
@@ -881,13 +965,83 @@ func (s *c33OState) step(cm c33Cmd, out *strings.Builder) {
 	}
 }
 
-func c33Oracle(cmds []c33Cmd) string {
+func c33Oracle(cmds []c33Cmd) (string, *c33OState) {
 	var out strings.Builder
 	s := &c33OState{}
 	for _, cm := range cmds {
 		s.step(cm, &out)
 	}
-	return out.String()
+	return out.String(), s
+}
+
+// c33ShowVar renders the final expand.Variable of a program (Runner.Vars) like the Lean driver's
+// showVar, and reports a representation that breaks the documented invariant of Indexes.
+func c33ShowVar(vars map[string]expand.Variable, name string) (rep string, kind int, m map[int]string, problem string) {
+	vr, ok := vars[name]
+	b01 := func(b bool) string {
+		if b {
+			return "1"
+		}
+		return "0"
+	}
+	switch {
+	case !ok || vr.Kind == expand.Unknown:
+		return "unset", 0, map[int]string{}, ""
+	case vr.Kind == expand.String:
+		return "str:" + b01(vr.Set) + ":" + hx(vr.Str), 1, map[int]string{0: vr.Str}, ""
+	case vr.Kind == expand.Indexed:
+		p := make([]string, len(vr.List))
+		for i, v := range vr.List {
+			p[i] = hx(v)
+		}
+		rep = "arr:" + b01(vr.Set) + ":" + hx(vr.Str) + ":" + c33ShowIdx(vr.Indexes) + ":" + strings.Join(p, ";")
+		m, wf := c33Abs(vr.List, vr.Indexes)
+		if !wf {
+			return rep, 2, nil, fmt.Sprintf("%s: List %q / Indexes %v break the invariant (unique, non-negative, sorted, as many as elements, nil iff dense)", name, vr.List, vr.Indexes)
+		}
+		return rep, 2, m, ""
+	}
+	return fmt.Sprintf("kind%d", vr.Kind), 3, nil, ""
+}
+
+// c33RunInterp is runInterp plus the final variables of the runner.
+func c33RunInterp(c *Ctx, script string) (ShellResult, map[string]expand.Variable) {
+	dir := scratchDir(c)
+	defer os.RemoveAll(dir)
+	var res ShellResult
+	var vars map[string]expand.Variable
+	res.Panic = safely(func() {
+		f, err := syntax.NewParser(syntax.Variant(syntax.LangBash)).Parse(strings.NewReader(script), "")
+		if err != nil {
+			res.Err = "parse: " + err.Error()
+			return
+		}
+		var out bytes.Buffer
+		r, err := interp.New(interp.StdIO(nil, &out, io.Discard), interp.Dir(dir),
+			interp.Env(expand.ListEnviron(shellEnv(c, dir)...)), interp.Params("--"))
+		if err != nil {
+			res.Err = "new: " + err.Error()
+			return
+		}
+		ctx, cancel := context.WithTimeout(context.Background(), 10*time.Second)
+		defer cancel()
+		err = r.Run(ctx, f)
+		res.Stdout = out.String()
+		if ctx.Err() != nil {
+			res.TimedOut = true
+			return
+		}
+		if err != nil {
+			var es interp.ExitStatus
+			if asExit(err, &es) {
+				res.Status = int(es)
+			} else {
+				res.Err = err.Error()
+			}
+		}
+		vars = r.Vars
+	})
+	return res, vars
 }
 
 // ---- generator ----
@@ -997,6 +1151,7 @@ func c33GenItems(r *Rand, v c33OVar) []string {
 
 // c33GenProg generates a command list, tracking bash's semantics with the oracle so that the
 // documented exclusions can be applied exactly (see props/C33.notes.md):
+//   * `unset x` not while x holds what mapfile/readarray just stored  (finding C33-mapfile-not-set)
 //   * out-of-range negative `x[i]=v` only at top level     (bash aborts the enclosing function /
 //     subshell on an assignment error; error handling, not array semantics)
 //   * reads only on arrays and unset variables, `${!x[@]}` only on arrays, `${x[-n]}` only in
@@ -1044,6 +1199,52 @@ func c33GenProg(r *Rand, thorough bool) ([]c33Cmd, []string) {
 		v := s.v(x)
 		for try := 0; try < 8; try++ {
 			k := r.Intn(100)
+			// builtins that REPLACE the array wholesale (on whatever dense/sparse/scalar/unset
+			// state x is in): read -a, mapfile/readarray, declare -a x=(…)
+			if pre := r.Intn(100); pre < 16 {
+				switch {
+				case pre < 7:
+					vnt := r.Intn(4)
+					alpha := []string{"x", "y", "ab", "0", "*", "zz", "Q", "7"}
+					if vnt >= 2 {
+						alpha = append(alpha, "p q") // only the IFS character splits
+					}
+					n := r.Intn(5)
+					if r.Chance(15) {
+						n = 5 + r.Intn(6)
+					}
+					vals := make([]string, n)
+					for j := range vals {
+						vals[j] = r.Pick(alpha)
+					}
+					emit(c33Cmd{x: x, kind: "ra", vnt: vnt, vals: vals})
+					tagset["op:read-a"] = true
+					if v.kind == 2 && len(v.m) > 0 {
+						tagset["replace-existing-array"] = true
+					}
+				case pre < 12:
+					n := r.Intn(5)
+					if r.Chance(15) {
+						n = 5 + r.Intn(6)
+					}
+					vals := make([]string, n)
+					for j := range vals {
+						vals[j] = r.Pick(c33ProgVals) // lines may be empty or contain spaces
+					}
+					emit(c33Cmd{x: x, kind: "mf", vnt: r.Intn(2), vals: vals})
+					tagset["op:mapfile"] = true
+					if v.kind == 2 && len(v.m) > 0 {
+						tagset["replace-existing-array"] = true
+					}
+				default:
+					if inBlk == "fn" && ((x == "a" && s.la) || (x == "b" && s.lb)) {
+						continue // declare -g would go past the local
+					}
+					emit(c33Cmd{x: x, kind: "da", es: c33GenElems(r, *v, true)})
+					tagset["op:declare-a"] = true
+				}
+				break
+			}
 			switch {
 			case k < 14:
 				emit(c33Cmd{x: x, kind: "as", es: c33GenElems(r, *v, true)})
@@ -1103,6 +1304,9 @@ func c33GenProg(r *Rand, thorough bool) ([]c33Cmd, []string) {
 				emit(c33Cmd{x: x, kind: "ue", i: i})
 				tagset["op:unset-elem"] = true
 			case k < 88:
+				if v.noSet {
+					continue // finding C33-mapfile-not-set: `unset x` is a no-op in interp right after mapfile
+				}
 				emit(c33Cmd{x: x, kind: "ua"})
 				tagset["op:unset-all"] = true
 			case k < 94:
@@ -1238,14 +1442,16 @@ type c33ProgCase struct {
 func c33RunProgs(c *Ctx, cases []c33ProgCase) {
 	type result struct {
 		interp, bash string
+		vars         map[string]expand.Variable
 	}
 	results := parallelMap(len(cases), 4, func(i int) result {
 		script := c33Render(cases[i].cmds)
 		var res result
 		// A timeout can only come from a starved machine (the programs have no loops): retry.
 		for try := 0; try < 8; try++ {
-			r := runInterp(c, syntax.LangBash, script)
+			r, vars := c33RunInterp(c, script)
 			res.interp = c33Canon(r)
+			res.vars = vars
 			if !r.TimedOut {
 				break
 			}
@@ -1268,10 +1474,31 @@ func c33RunProgs(c *Ctx, cases []c33ProgCase) {
 		got := results[i].interp
 		c.Op("prog "+toks, got)
 		c.Op("specprog "+toks, got)
-		want := c33Oracle(pc.cmds)
+		want, final := c33Oracle(pc.cmds)
 		witness := "specprog " + toks
 		if got != want {
 			c.Fail(witness, fmt.Sprintf("interp prints %q, the map oracle (bash semantics) says %q; program:\n%s", got, want, c33Render(pc.cmds)))
+		}
+		// List/Indexes probe on the variables the runner ends with: representation = model
+		// (`progrep`), invariant, and abstraction = the oracle's final map.
+		if results[i].vars != nil {
+			repA, kindA, mA, probA := c33ShowVar(results[i].vars, "a")
+			repB, kindB, mB, probB := c33ShowVar(results[i].vars, "b")
+			c.Op("progrep "+toks, "a="+repA+" b="+repB)
+			for _, pr := range []struct {
+				prob string
+				kind int
+				m    map[int]string
+				o    c33OVar
+				name string
+			}{{probA, kindA, mA, final.a, "a"}, {probB, kindB, mB, final.b, "b"}} {
+				if pr.prob != "" {
+					c.Fail(witness, "after the program, "+pr.prob+"; program:\n"+c33Render(pc.cmds))
+				} else if pr.kind != pr.o.kind || c33ShowMap(pr.m) != c33ShowMap(pr.o.m) {
+					c.Fail(witness, fmt.Sprintf("after the program %s is kind %d %s, the map oracle says kind %d %s; program:\n%s",
+						pr.name, pr.kind, c33ShowMap(pr.m), pr.o.kind, c33ShowMap(pr.o.m), c33Render(pc.cmds)))
+				}
+			}
 		}
 		if pc.bash && results[i].bash == "unavailable" {
 			c.Hist["bash-unavailable"]++ // bash could not be run in time (starved machine); not a verdict
@@ -1299,7 +1526,7 @@ func c33(c *Ctx) {
 	c.Rule = "unit: random (list, indexes) representations (35% dense, 50% sparse incl. large gaps, 15% malformed) × " +
 		"{set,del,val,keys,max,canon,slice} with indices at/around existing ones, len, len+1, negative, huge; " +
 		"programs: 3–22 array statements on one or two arrays (a=(…) with [i]=, a+=(…), a[i]=v incl. negative, a=v, a+=v, " +
-		"unset a[i], unset a, copies), optionally inside a function (with local), ( ) or $( ), printing values, keys, count, " +
+		"unset a[i], unset a, copies, read -a / IFS=… read -ra, mapfile/readarray -t, declare -a a=(…)), optionally inside a function (with local), ( ) or $( ), printing values, keys, count, " +
 		"elements, slices after most statements; non-trivial = list of ≥2 elements / ≥3 commands; distinct by exact input"
 	// corpus first
 	var progs []c33ProgCase
